@@ -36,7 +36,8 @@ GrainDefs(k, g) ==
                       EExp(ENeg(EMul(EParam("lam"), EMul(EVar(Sfx("rho" \o ToString(s), g)), EVar(Sfx("rho" \o ToString(s), g)))))))
     IN << <<bi, ESPow(EQ(k.rint), EParam("n"))>>,
           <<bm, ESPow(EQ(k.rmin), EParam("n"))>>,
-          <<g0, EGDivPoly(k.R2, k.R1, bi, bm)>>,
+          <<g0, IF k.limit THEN EMul(EParam("delta"), EGDivPoly(k.R2lin, k.R1, bi, bm))
+                ELSE EGDivPoly(k.R2, k.R1, bi, bm)>>,
           <<Sfx("rho1", g), rho(1)>>, <<Sfx("rho2", g), rho(2)>>, <<Sfx("rho3", g), rho(3)>>,
           <<Sfx("E", g), EAdd(EAdd(en(1), en(2)), en(3))>> >>
 
@@ -51,7 +52,7 @@ Kernels(c) == [g \in Grains(c) |-> Kernel(c.fab, c.As[g], c.L)]
 CaseProgram(c, ks) ==
     LET n == Len(c.As)
         ebar == ESum([g \in 1..n |-> EMul(EQ(c.f[g]), EVar(Sfx("E", g)))])
-    IN [ fab |-> c.fab, regime |-> c.regime, L |-> MatToSeq(c.L),
+    IN [ fab |-> c.fab, regime |-> c.regime, L |-> MatToSeq(c.L), limit |-> FALSE,
          As |-> [g \in 1..n |-> MatToSeq(c.As[g])], f |-> c.f,
          tie |-> [g \in 1..n |-> ks[g].tie], dead |-> [g \in 1..n |-> ks[g].dead],
          unresolved |-> [g \in 1..n |-> ks[g].unresolved],
